@@ -653,6 +653,15 @@ bool ObjectFile::writeAttributes(File &objectFile)
 		}
 	}
 
+	if (!objectFile.flush())
+	{
+		DEBUG_MSG("Failed to flush object %s", path.c_str());
+
+		objectFile.unlock();
+
+		return false;
+	}
+
 	objectFile.unlock();
 
 	return true;
